@@ -32,6 +32,8 @@ import (
 	"github.com/apache/skywalking-banyandb/pkg/partition"
 	pbv1 "github.com/apache/skywalking-banyandb/pkg/pb/v1"
 	"github.com/apache/skywalking-banyandb/pkg/query/model"
+	"github.com/apache/skywalking-banyandb/pkg/query/vectorized"
+	vmeasure "github.com/apache/skywalking-banyandb/pkg/query/vectorized/measure"
 	"github.com/apache/skywalking-banyandb/pkg/run"
 	"github.com/apache/skywalking-banyandb/pkg/timestamp"
 	"github.com/apache/skywalking-banyandb/pkg/watcher"
@@ -306,7 +308,7 @@ func (t *VTable) Merge(labels []int) string {
 // Query runs the part selection, block search (measure.searchBlocks), block loading and the
 // queryResult heap merge of measure.Query against the table's current snapshot.
 // order: "ta" time asc (Order == nil), "td" time desc, "s" by series (in the order given).
-func (t *VTable) Query(sc *VSchema, sids []uint64, tmin, tmax int64, order string) ([][]VRow, string) {
+func (t *VTable) Query(sc *VSchema, sids []uint64, tmin, tmax int64, order string, batch bool) ([][]VRow, string) {
 	var mqo model.MeasureQueryOptions
 	types := make(map[string]pbv1.ValueType)
 	for _, tg := range sc.Tags {
@@ -352,6 +354,52 @@ func (t *VTable) Query(sc *VSchema, sids []uint64, tmin, tmax int64, order strin
 		return nil, "ERR"
 	}
 	applyMeasureQueryOrdering(mqo, &result)
+	if batch {
+		// the columnar read path of measure.Query: BatchSchema as built there, then PullBatch until exhausted
+		ms, _ := VMeasureSchema(sc)
+		bs, err := vmeasure.BuildBatchSchema(ms, model.MeasureQueryOptions{TagProjection: mqo.TagProjection, FieldProjection: mqo.FieldProjection})
+		if err != nil {
+			return nil, "ERR-schema"
+		}
+		result.batchSchema = bs
+		var out [][]VRow
+		for {
+			b, err := result.PullBatch(context.Background())
+			if err != nil {
+				return nil, "ERR"
+			}
+			if b == nil {
+				break
+			}
+			var rows []VRow
+			for i := 0; i < b.RowCount(); i++ {
+				row := VRow{Sid: uint64(b.SeriesIDs[i]), Ts: b.Timestamps[i], Ver: b.Versions[i]}
+				for k := range sc.Tags {
+					var v *modelv1.TagValue
+					if c, ok := b.Tags[k].(*vectorized.TypedColumn[*modelv1.TagValue]); ok && i < c.Len() {
+						v = c.Data()[i]
+						if c.IsNull(i) || v == nil {
+							v = pbv1.NullTagValue
+						}
+					}
+					row.Tags = append(row.Tags, v)
+				}
+				for k := range sc.Fields {
+					var v *modelv1.FieldValue
+					if c, ok := b.Fields[k].(*vectorized.TypedColumn[*modelv1.FieldValue]); ok && i < c.Len() {
+						v = c.Data()[i]
+						if c.IsNull(i) || v == nil {
+							v = pbv1.NullFieldValue
+						}
+					}
+					row.Fields = append(row.Fields, v)
+				}
+				rows = append(rows, row)
+			}
+			out = append(out, rows)
+		}
+		return out, ""
+	}
 	var out [][]VRow
 	for {
 		r := result.Pull()
@@ -393,6 +441,9 @@ func (t *VTable) Query(sc *VSchema, sids []uint64, tmin, tmax int64, order strin
 	}
 	return out, ""
 }
+
+// VBatchMaxRows is the row cap of one PullBatch call.
+func VBatchMaxRows() int { return mergeBatchMaxRows }
 
 // Dump lists the parts of the current snapshot and their blocks in storage order:
 // "<label><m|f>[ sid/count/min/max/checksum ...]" – read with the merge reader (partMergeIter).
